@@ -348,6 +348,7 @@ template <class C> void Exec<C>::exec_query(int i, const Op& op, OpOut& o) {
             MgrInst& m = mgr_of(x.mgr); QL* h = x.head; x.head = nullptr;
             volatile int rc = 0;
             if (!call(i, TAG_Q + xs, x.mgr, FaultPlan(), [&] { if (m.kind == MK_LIBC) A::FreeQueryList(h); else rc = A::FreeQueryListMm(h, m.table); })) return false;
+            if (rc != URI_SUCCESS) violate(V_WRONG_RC, "uriFreeQueryListMm returned " + std::to_string(rc), false);
             int live = heap_live_count(-1, TAG_Q + xs, -1);
             if (live) violate(V_LEAK_AFTER_RELEASE, "after freeing query list q" + std::to_string(xs) + " " + std::to_string(live) + " block(s) are still outstanding: " + heap_live_desc(-1, TAG_Q + xs, -1), false);
         }
